@@ -368,12 +368,61 @@ def check_ploidy_carried(prog, rep, K):
     return n
 
 
+def check_fresh(prog, rep, K, stats):
+    """R8-fresh: a summary statistic neither writes the object's own storage nor hands it out: no in-place update reaches an attribute of the matrix (directly, or
+    through the value another statistic returns by reference, e.g. a cached frequency vector that maf() then folds in place), so two reads of an unmodified
+    population agree and the limits computed from the frequencies describe the population they were asked about"""
+    from sa.purity import Purity, root_text
+    R = "R8-fresh"
+    summaries = {}
+    for m in stats:
+        f = prog.lookup_method(K, m)
+        if f is None or not hasattr(f, "node"):
+            continue
+        construct = "%s.%s" % (K.qualname, m)
+        try:
+            pu = Purity(prog, f, summaries)
+            pu.K = K
+        except RecursionError:
+            rep.unrec(R, construct, "alias walk did not terminate")
+            continue
+        rep.saw(f)
+        evs = [e for e in pu.events if any(r[0] == "attr" for r in e.roots)]
+        stored = sorted({field_of(t) for st in walk_no_nested(f.node) if isinstance(st, (ast.Assign, ast.AugAssign))
+                         for t in (st.targets if isinstance(st, ast.Assign) else [st.target]) if isinstance(t, ast.Attribute) and field_of(t)})
+        if evs:
+            e = evs[0]
+            r0 = sorted(r for r in e.roots if r[0] == "attr")[0]
+            rep.violate(R, construct, "`%s` updates in place %s: the statistic changes the object's stored state, so a later read of the same unmodified population gives "
+                        "another answer" % (e.what, root_text(r0)), where(f, e.node), "a fresh array", e.what)
+        elif stored:
+            # a statistic that stores on the object (a cache) must be invalidated by every writer of the genotype array
+            writers = []
+            for C in [K] + [c for c in prog.mro(K) if hasattr(c, "methods")]:
+                for g in C.methods.values():
+                    if g.name in ("__init__",) or g is f:
+                        continue
+                    for st in walk_no_nested(g.node):
+                        if isinstance(st, ast.Assign) and any(isinstance(t, ast.Attribute) and field_of(t) in ("_mat", "mat") for t in st.targets):
+                            resets = {field_of(t) for s2 in walk_no_nested(g.node) if isinstance(s2, ast.Assign) for t in s2.targets if isinstance(t, ast.Attribute)}
+                            if not set(stored) <= resets and g.qualname not in [w.qualname for w in writers]:
+                                writers.append(g)
+            if writers:
+                rep.violate(R, construct, "%s() keeps its result on the object (self.%s) but %s assigns the genotype array without resetting it: after that change the statistic "
+                            "still describes the previous population" % (m, ", self.".join(stored), ", ".join(sorted({w.cls.name + "." + w.name for w in writers}))[:120]),
+                            where(f), "no state kept by a statistic, or reset at every writer of the matrix", "self.%s" % stored[0])
+            else:
+                rep.ok(R, construct, "keeps self.%s, reset by every writer of the genotype array" % ", self.".join(stored))
+        else:
+            rep.ok(R, construct, "writes no storage of the object and stores nothing on it")
+
+
 def run(prog, rep, tier):
     rep.explanation = ("Spec congruence of every statistic with its definition through an algebraic normal form (both genotype classes), structural rule for the "
                        "genotype-class count, complement forms, a forward taint (reciprocal-multiply values reaching comparisons with 1) with function summaries, "
                        "and a dtype rule against accumulation in the int8 storage type.")
     rep.not_decided = ["dtype conversion corner cases of user-requested output dtypes", "exact floating-point results away from the 0/1 boundary"]
-    for r, n in (("R1-definitions", 14), ("R3-classes", 2), ("R4-complement", 2), ("R5-exact-at-one", 4), ("R6-accumulator", 16), ("R7-ploidy", 10)):
+    for r, n in (("R1-definitions", 14), ("R3-classes", 2), ("R4-complement", 2), ("R5-exact-at-one", 4), ("R6-accumulator", 16), ("R7-ploidy", 10), ("R8-fresh", 20)):
         rep.floor(r, n)
     for mod, cname in (GM, PGM):
         K = prog.get_class(cname, mod)
@@ -382,4 +431,5 @@ def run(prog, rep, tier):
         check_complement(prog, rep, K)
         check_accumulators(prog, rep, K, STATS)
         check_ploidy_carried(prog, rep, K)
+        check_fresh(prog, rep, K, STATS)
     check_exactness(prog, rep, tier, sink_filter=NOT_SELECTION)
